@@ -110,4 +110,18 @@ PROPS = {
             "random object ids are an arbitrary choice among unused ids",
         ],
     },
+    "C09": {
+        "level": "proof",
+        "extract": ["SigGrammar"],
+        "rule": "random signatures of the grammar (depth<=5, all 16 basic letters, lists, maps, tuples, structs with plain "
+                "and template names; tuple nesting <= 7 because of the exponential parse time recorded under C07), 45% parsed "
+                "as they are (must print back identically), 15% with white space injected, 25% near misses (one byte "
+                "deleted/inserted/swapped), 15% random bytes over the grammar's alphabet; printed signature, IDL name and "
+                "reflect type string compared with the model; fixed point checked on everything accepted; thorough adds "
+                "all signatures of depth<=2/width<=2 over {i,s,m}",
+        "assumptions": [
+            "goparsec combinator semantics as transcribed in Model/Peg.lean from parsec.go/tokeniser.go/scanner.go",
+            "Go regexp leftmost-first semantics for the two token patterns (hand-written matchers)",
+        ],
+    },
 }
